@@ -90,8 +90,8 @@ theorem firstCloseGo_other (c : Char) (cs : Str) (i : Nat) (o : Int) (h1 : c ≠
     firstCloseGo (c :: cs) i o = firstCloseGo cs (i + 1) o := by
   rw [firstCloseGo] <;> (intros; simp_all)
 
-theorem firstCloseGo_open (d : Char) (cs : Str) (i : Nat) (o : Int) :
-    firstCloseGo ('{' :: d :: cs) i o = firstCloseGo cs (i + 2) (o + 1) := by
+theorem firstCloseGo_open (cs : Str) (i : Nat) (o : Int) :
+    firstCloseGo ('{' :: cs) i o = firstCloseGo cs (i + 1) (o + 1) := by
   rw [firstCloseGo]
 
 theorem firstCloseGo_close1 (cs : Str) (i : Nat) : firstCloseGo ('}' :: cs) i 1 = some i := by
@@ -135,11 +135,10 @@ theorem repl_braced_name (f : Nat) (env : Env) (n : Str) (hv : ValidName n) :
   have hall := hv.2
   obtain ⟨c, r, hn, hs⟩ := hv.1
   have hfc : firstClose ('$' :: '{' :: (n ++ ['}'])) = some (n.length + 2) := by
-    subst hn
-    simp only [firstClose, List.cons_append]
+    simp only [firstClose]
     rw [firstCloseGo_other _ _ _ _ (by decide) (by decide), firstCloseGo_open,
       show ((0 : Int) + 1) = 1 from rfl,
-      firstCloseGo_name r [] _ (fun x hx => hall x (by simp [hx]))]
+      firstCloseGo_name n [] _ hall]
     simp; omega
   have hlen : ('$' :: '{' :: (n ++ ['}'])).length = n.length + 2 + 1 := by simp
   rw [repl]
